@@ -21,8 +21,8 @@
 (assert
  (>= total_a!5 1))
 (assert
- (let ((?x37 (+ (+ completed_a!2 failed_a!3) running_a!4)))
- (<= ?x37 total_a!5)))
+ (let ((?x39 (+ (+ completed_a!2 failed_a!3) running_a!4)))
+ (<= ?x39 total_a!5)))
 (assert
  (>= completed_b!7 0))
 (assert
@@ -36,18 +36,18 @@
 (assert
  (<= (+ (+ completed_b!7 failed_b!8) running_b!9) total_b!10))
 (assert
- (let (($x62 (<= running_a!4 0)))
- (not $x62)))
+ (let (($x64 (<= running_a!4 0)))
+ (not $x64)))
 (assert
- (let (($x61 (<= running_b!9 0)))
- (not $x61)))
+ (let (($x63 (<= running_b!9 0)))
+ (not $x63)))
 (assert
  (>= running_a!4 1))
 (assert
  (>= t!12 t0!1))
 (assert
- (let ((?x39 (+ running_a!4 running_b!9)))
-(let ((?x77 (to_real ?x39)))
-(let (($x78 (and (distinct ?x77 0.0) true)))
-(not $x78)))))
+ (let ((?x41 (+ running_a!4 running_b!9)))
+(let ((?x79 (to_real ?x41)))
+(let (($x80 (and (distinct ?x79 0.0) true)))
+(not $x80)))))
 (check-sat)
